@@ -811,6 +811,17 @@ def _type_from_subscripted_value(
         return AnnotatedValue(
             TypedValue(bool), [TypeIsExtension(_type_from_value(members[0], ctx))]
         )
+    elif is_typing_name(root, "Final"):
+        if len(members) != 1:
+            ctx.show_error("Final requires a single argument")
+            return AnyValue(AnySource.error)
+        # TODO(#160): properly support Final
+        return _type_from_value(members[0], ctx)
+    elif is_typing_name(root, "ClassVar"):
+        if len(members) != 1:
+            ctx.show_error("ClassVar requires a single argument")
+            return AnyValue(AnySource.error)
+        return _type_from_value(members[0], ctx)
     elif is_typing_name(root, "Required"):
         if not is_typeddict:
             ctx.show_error("Required[] used in unsupported context")
